@@ -627,6 +627,8 @@ DomainNameToSequenceOfLabels(const uint8_t *name, size_t name_len, uint8_t *buf,
 		(*name_size_ret) = name_size;
 	}
 
+	if (DNS_MAX_NAME_LENGTH < name_size) /* RFC 1035 2.3.4: 255 octets or less. */
+		return (EINVAL);
 	if (name_size > buf_size) // small buf
 		return (EOVERFLOW);
 	if (0 == name_len) {
@@ -1222,6 +1224,9 @@ dns_msg_rr_add(dns_hdr_p hdr, size_t msg_size, size_t msgbuf_size, int compress,
 	    (sizeof(uint8_t*) + sizeof(uint8_t))) + data_size);
 	if (msgbuf_size < rr_size_tm) 
 		return (EOVERFLOW);
+	if (NULL != rr_size) { /* Real size: root name use 1 byte, not 2. */
+		(*rr_size) = rr_size_tm;
+	}
 
 	//rr->name = ;
 	rr->type = htons(type);
